@@ -39,6 +39,10 @@ CLAIMED = {
          "generated search: after every successful edit the order keys along a pre-order walk must be non-zero, distinct and increasing, and a battery of 24 node-set queries must select the same nodes in the same order on the edited document as on from_raw(document.to_string())",
          "trusted: path-based node identification across the two documents; comparison only where the live view and the re-parsed view coincide (no adjacent/empty text nodes); DTD-defaulted attributes carry no key",
          "DESIGN.md section 5, C14"),
+ "C13": ("stateful property-based testing (proptest): every call of a generated edit history is compared with a DOM Level 1 reference semantics applied to a snapshot of the pre-state (single-step differential, model re-synchronised each step)",
+         "generated search: for every mutator call the outcome must be admissible under DOM Level 1 computed from a snapshot of all reachable nodes: success with exactly the specified post-state, or one of the specified exception classes with the pre-state unchanged (atomic failure); panics are never admissible",
+         "trusted: the DOM Level 1 reference semantics in props/c13.rs (hierarchy rules, exception conditions, character-data arithmetic); corners DOM Level 1 leaves open are not judged and counted (unspecified:*)",
+         "DESIGN.md section 5, C13"),
 }
 ALL = ["C%02d" % i for i in range(1, 20)]
 PENDING_REASON = "check not built yet in this snapshot of /verif (work in progress; DESIGN.md section 5 describes the planned generated-search check)"
